@@ -55,6 +55,8 @@ type Backend struct {
 	DeleteMissingOK bool
 	// ShortPages makes KeysPrefix return fewer keys than asked, with a non-empty next (legal for GCS)
 	ShortPages int // 0 = off; else max page = max(1, count/ShortPages)
+	// LineSetSum makes the rendered checksum of written payloads insensitive to line order
+	LineSetSum bool
 }
 
 func newBackend(name string, w *World) *Backend {
@@ -425,7 +427,7 @@ func (w *World) submit(c *Call) result {
 	c.reg = w.regSeq
 	w.regSeq++
 	c.wake = make(chan result, 1)
-	c.sortKey = c.Client.Name + "\x00" + c.Tag + "\x00" + c.bucketName() + "\x00" + c.Op.String() + "\x00" + c.renderKey() + "\x00" + strconv.Itoa(len(c.Data)) + "\x00" + strconv.FormatUint(uint64(crc32.Checksum(c.Data, castagnoli)), 16) + "\x00" + callPath()
+	c.sortKey = c.Client.Name + "\x00" + c.Tag + "\x00" + c.bucketName() + "\x00" + c.Op.String() + "\x00" + c.renderKey() + "\x00" + strconv.Itoa(len(c.Data)) + "\x00" + payloadSig(c) + "\x00" + callPath()
 	w.parked = append(w.parked, c)
 	w.mu.Unlock()
 	return <-c.wake
@@ -608,4 +610,17 @@ func callPath() string {
 	sig := strconv.FormatUint(h.Sum64(), 36)
 	callPathCache.Store(key, sig)
 	return sig
+}
+
+func payloadSig(c *Call) string {
+	if c.Bucket != nil && c.Bucket.LineSetSum {
+		var sum uint64
+		for _, ln := range bytes.Split(c.Data, []byte{'\n'}) {
+			h := fnv.New64a()
+			h.Write(ln)
+			sum += h.Sum64()
+		}
+		return strconv.FormatUint(sum, 16)
+	}
+	return strconv.FormatUint(uint64(crc32.Checksum(c.Data, castagnoli)), 16)
 }
